@@ -442,5 +442,12 @@ HYPOTHESES = {'C06': c06_oracle}
 
 EVERYWHERE = ('C04', 'C06', 'C09', 'C12', 'C13', 'C14', 'C19')      # monitors that need no fragment hypothesis
 
-ALL = {'C12': c12, 'C06': c06, 'C01': c01, 'C02': c02, 'C03': c03, 'C04': c04, 'C05': c05, 'C09': c09, 'C10': c10, 'C11': c11,
+def c19_strict(tr, sem=None):
+    """C19 with the multiplicity rule also inside recurrent pipelines (the recorded finding)"""
+    t = dict(tr)
+    t['c19_strict'] = True
+    return c19(t, sem)
+
+
+ALL = {'C12': c12, 'C06': c06, 'C19strict': c19_strict, 'C01': c01, 'C02': c02, 'C03': c03, 'C04': c04, 'C05': c05, 'C09': c09, 'C10': c10, 'C11': c11,
        'C13': c13, 'C14': c14, 'C19': c19}
